@@ -44,6 +44,11 @@ var families = map[string]family{
 		idPool: []string{"1", "2", "3", "4"}, Ks: []int{1, 3}, push: []bool{true, false}, builtin: []bool{true}, steps: 24},
 }
 
+// method names of pushed requests: mostly plain, some that need escaping on the wire (control characters, DEL,
+// quotes, HTML metacharacters, a non-printable rune beyond the BMP): every pushed record must still be one message
+var pushNoteNames = []string{"pn", "pn", "pn", "pn", "p\x01n", "p\a\vn", "p\x7fn", "p\"n\\", "<p&n>", "p\U000e0001n", "p\u2028n"}
+var pushCallNames = []string{"pc", "pc", "pc", "pc", "p\x02c", "p\x1fc", "p\x7fc", "p\"c", "<p&c>", "p\U000e0001c"}
+
 type scen struct {
 	r        *srvRun
 	g        *rng
@@ -301,9 +306,9 @@ func (s *scen) step() {
 		{f.wStop, func() { r.callStop() }},
 		{f.wPush, func() {
 			if g.chance(1, 3) {
-				r.callPush(false, "pn", pick(g, []string{"", `{"k":1}`, `[1,2]`}))
+				r.callPush(false, pick(g, pushNoteNames), pick(g, []string{"", `{"k":1}`, `[1,2]`}))
 			} else {
-				r.callPush(true, "pc", pick(g, []string{"", `{"k":1}`, `[3]`}))
+				r.callPush(true, pick(g, pushCallNames), pick(g, []string{"", `{"k":1}`, `[3]`}))
 			}
 		}},
 		{f.wSendFault, func() {
